@@ -161,7 +161,7 @@ class Check(PropertyCheck):
         tmp = scratch_dir("rv_c28w_")
         nb = 0
         scen = [(kind, depth, wraps, world, nprev)
-                for kind in ("stamp", "report", "const", "subrun") for depth in (0, 1, 2)
+                for kind in ("stamp", "report", "const", "subrun", "handles") for depth in (0, 1, 2)
                 for wraps in (("wrap_full",), ("wrap_shallow", "wrap_full"))
                 for world in ("same", "bump-generation", "edit-file", "delete-file") for nprev in (1, 2)
                 if not (kind != "report" and world in ("edit-file", "delete-file"))]
@@ -169,7 +169,7 @@ class Check(PropertyCheck):
             scen = [tuple(tuple(x) if isinstance(x, list) else x for x in only)]
         elif self.tier == "quick":
             self.rng.shuffle(scen)
-            scen = scen[:30] + [x for x in scen[30:] if x[0] == "subrun"][:4]
+            scen = scen[:30] + [x for x in scen[30:] if x[0] == "subrun"][:4] + [x for x in scen[30:] if x[0] == "handles"][:4]
 
         def mk(db):
             s = Scheduler(config=Config({"backend": {"db_uri": f"sqlite:///{db}"}}))
